@@ -26,7 +26,7 @@ Definition shape_imm (sh : shape) : bool := match sh with ShOpt => false | _ => 
 Definition shape_ddl (sh : shape) : bool := match sh with ShDdl => true | _ => false end.
 
 Inductive stmt := SFkOn | SCsLike | SFkGet | SFkOff | SBegin | SSelect | SWrite.
-Inductive call := KConnect | KCursor | KExecute (q : stmt) | KCommit | KRollback | KClose.
+Inductive call := KConnect | KCursor | KExecute (q : stmt) | KExecMany (q : stmt) | KCommit | KRollback | KClose.
 
 (* a driver call: what, on which connection, did it succeed, provider.transaction_lock.locked() and the driver-level
    transaction flag of the connection at the time of the call (these five are compared with the real wrapper's record);
@@ -59,6 +59,8 @@ Record st : Type := mkSt {
   k_imm : bool;
   k_fk : bool;
   k_pending : nat;
+  k_mrem : bool;
+  k_madd : bool;
   k_forupd : nat;
   k_saved : bool;
   ncall : nat;
@@ -66,30 +68,32 @@ Record st : Type := mkSt {
   bad : list badness
 }.
 
-Definition set_lock (v : bool) (s : st) : st := mkSt v (mine s) (p_has s) (p_id s) (p_fk s) (p_cs s) (p_txn s) (p_pidset s) (out s) (next s) (closed s) (sess s) (k_reg s) (k_has s) (k_id s) (k_intxn s) (k_imm s) (k_fk s) (k_pending s) (k_forupd s) (k_saved s) (ncall s) (trace s) (bad s).
-Definition set_mine (v : bool) (s : st) : st := mkSt (lock s) v (p_has s) (p_id s) (p_fk s) (p_cs s) (p_txn s) (p_pidset s) (out s) (next s) (closed s) (sess s) (k_reg s) (k_has s) (k_id s) (k_intxn s) (k_imm s) (k_fk s) (k_pending s) (k_forupd s) (k_saved s) (ncall s) (trace s) (bad s).
-Definition set_p_has (v : bool) (s : st) : st := mkSt (lock s) (mine s) v (p_id s) (p_fk s) (p_cs s) (p_txn s) (p_pidset s) (out s) (next s) (closed s) (sess s) (k_reg s) (k_has s) (k_id s) (k_intxn s) (k_imm s) (k_fk s) (k_pending s) (k_forupd s) (k_saved s) (ncall s) (trace s) (bad s).
-Definition set_p_id (v : nat) (s : st) : st := mkSt (lock s) (mine s) (p_has s) v (p_fk s) (p_cs s) (p_txn s) (p_pidset s) (out s) (next s) (closed s) (sess s) (k_reg s) (k_has s) (k_id s) (k_intxn s) (k_imm s) (k_fk s) (k_pending s) (k_forupd s) (k_saved s) (ncall s) (trace s) (bad s).
-Definition set_p_fk (v : bool) (s : st) : st := mkSt (lock s) (mine s) (p_has s) (p_id s) v (p_cs s) (p_txn s) (p_pidset s) (out s) (next s) (closed s) (sess s) (k_reg s) (k_has s) (k_id s) (k_intxn s) (k_imm s) (k_fk s) (k_pending s) (k_forupd s) (k_saved s) (ncall s) (trace s) (bad s).
-Definition set_p_cs (v : bool) (s : st) : st := mkSt (lock s) (mine s) (p_has s) (p_id s) (p_fk s) v (p_txn s) (p_pidset s) (out s) (next s) (closed s) (sess s) (k_reg s) (k_has s) (k_id s) (k_intxn s) (k_imm s) (k_fk s) (k_pending s) (k_forupd s) (k_saved s) (ncall s) (trace s) (bad s).
-Definition set_p_txn (v : bool) (s : st) : st := mkSt (lock s) (mine s) (p_has s) (p_id s) (p_fk s) (p_cs s) v (p_pidset s) (out s) (next s) (closed s) (sess s) (k_reg s) (k_has s) (k_id s) (k_intxn s) (k_imm s) (k_fk s) (k_pending s) (k_forupd s) (k_saved s) (ncall s) (trace s) (bad s).
-Definition set_p_pidset (v : bool) (s : st) : st := mkSt (lock s) (mine s) (p_has s) (p_id s) (p_fk s) (p_cs s) (p_txn s) v (out s) (next s) (closed s) (sess s) (k_reg s) (k_has s) (k_id s) (k_intxn s) (k_imm s) (k_fk s) (k_pending s) (k_forupd s) (k_saved s) (ncall s) (trace s) (bad s).
-Definition set_out (v : bool) (s : st) : st := mkSt (lock s) (mine s) (p_has s) (p_id s) (p_fk s) (p_cs s) (p_txn s) (p_pidset s) v (next s) (closed s) (sess s) (k_reg s) (k_has s) (k_id s) (k_intxn s) (k_imm s) (k_fk s) (k_pending s) (k_forupd s) (k_saved s) (ncall s) (trace s) (bad s).
-Definition set_next (v : nat) (s : st) : st := mkSt (lock s) (mine s) (p_has s) (p_id s) (p_fk s) (p_cs s) (p_txn s) (p_pidset s) (out s) v (closed s) (sess s) (k_reg s) (k_has s) (k_id s) (k_intxn s) (k_imm s) (k_fk s) (k_pending s) (k_forupd s) (k_saved s) (ncall s) (trace s) (bad s).
-Definition set_closed (v : list nat) (s : st) : st := mkSt (lock s) (mine s) (p_has s) (p_id s) (p_fk s) (p_cs s) (p_txn s) (p_pidset s) (out s) (next s) v (sess s) (k_reg s) (k_has s) (k_id s) (k_intxn s) (k_imm s) (k_fk s) (k_pending s) (k_forupd s) (k_saved s) (ncall s) (trace s) (bad s).
-Definition set_sess (v : shape) (s : st) : st := mkSt (lock s) (mine s) (p_has s) (p_id s) (p_fk s) (p_cs s) (p_txn s) (p_pidset s) (out s) (next s) (closed s) v (k_reg s) (k_has s) (k_id s) (k_intxn s) (k_imm s) (k_fk s) (k_pending s) (k_forupd s) (k_saved s) (ncall s) (trace s) (bad s).
-Definition set_k_reg (v : bool) (s : st) : st := mkSt (lock s) (mine s) (p_has s) (p_id s) (p_fk s) (p_cs s) (p_txn s) (p_pidset s) (out s) (next s) (closed s) (sess s) v (k_has s) (k_id s) (k_intxn s) (k_imm s) (k_fk s) (k_pending s) (k_forupd s) (k_saved s) (ncall s) (trace s) (bad s).
-Definition set_k_has (v : bool) (s : st) : st := mkSt (lock s) (mine s) (p_has s) (p_id s) (p_fk s) (p_cs s) (p_txn s) (p_pidset s) (out s) (next s) (closed s) (sess s) (k_reg s) v (k_id s) (k_intxn s) (k_imm s) (k_fk s) (k_pending s) (k_forupd s) (k_saved s) (ncall s) (trace s) (bad s).
-Definition set_k_id (v : nat) (s : st) : st := mkSt (lock s) (mine s) (p_has s) (p_id s) (p_fk s) (p_cs s) (p_txn s) (p_pidset s) (out s) (next s) (closed s) (sess s) (k_reg s) (k_has s) v (k_intxn s) (k_imm s) (k_fk s) (k_pending s) (k_forupd s) (k_saved s) (ncall s) (trace s) (bad s).
-Definition set_k_intxn (v : bool) (s : st) : st := mkSt (lock s) (mine s) (p_has s) (p_id s) (p_fk s) (p_cs s) (p_txn s) (p_pidset s) (out s) (next s) (closed s) (sess s) (k_reg s) (k_has s) (k_id s) v (k_imm s) (k_fk s) (k_pending s) (k_forupd s) (k_saved s) (ncall s) (trace s) (bad s).
-Definition set_k_imm (v : bool) (s : st) : st := mkSt (lock s) (mine s) (p_has s) (p_id s) (p_fk s) (p_cs s) (p_txn s) (p_pidset s) (out s) (next s) (closed s) (sess s) (k_reg s) (k_has s) (k_id s) (k_intxn s) v (k_fk s) (k_pending s) (k_forupd s) (k_saved s) (ncall s) (trace s) (bad s).
-Definition set_k_fk (v : bool) (s : st) : st := mkSt (lock s) (mine s) (p_has s) (p_id s) (p_fk s) (p_cs s) (p_txn s) (p_pidset s) (out s) (next s) (closed s) (sess s) (k_reg s) (k_has s) (k_id s) (k_intxn s) (k_imm s) v (k_pending s) (k_forupd s) (k_saved s) (ncall s) (trace s) (bad s).
-Definition set_k_pending (v : nat) (s : st) : st := mkSt (lock s) (mine s) (p_has s) (p_id s) (p_fk s) (p_cs s) (p_txn s) (p_pidset s) (out s) (next s) (closed s) (sess s) (k_reg s) (k_has s) (k_id s) (k_intxn s) (k_imm s) (k_fk s) v (k_forupd s) (k_saved s) (ncall s) (trace s) (bad s).
-Definition set_k_forupd (v : nat) (s : st) : st := mkSt (lock s) (mine s) (p_has s) (p_id s) (p_fk s) (p_cs s) (p_txn s) (p_pidset s) (out s) (next s) (closed s) (sess s) (k_reg s) (k_has s) (k_id s) (k_intxn s) (k_imm s) (k_fk s) (k_pending s) v (k_saved s) (ncall s) (trace s) (bad s).
-Definition set_k_saved (v : bool) (s : st) : st := mkSt (lock s) (mine s) (p_has s) (p_id s) (p_fk s) (p_cs s) (p_txn s) (p_pidset s) (out s) (next s) (closed s) (sess s) (k_reg s) (k_has s) (k_id s) (k_intxn s) (k_imm s) (k_fk s) (k_pending s) (k_forupd s) v (ncall s) (trace s) (bad s).
-Definition set_ncall (v : nat) (s : st) : st := mkSt (lock s) (mine s) (p_has s) (p_id s) (p_fk s) (p_cs s) (p_txn s) (p_pidset s) (out s) (next s) (closed s) (sess s) (k_reg s) (k_has s) (k_id s) (k_intxn s) (k_imm s) (k_fk s) (k_pending s) (k_forupd s) (k_saved s) v (trace s) (bad s).
-Definition set_trace (v : list event) (s : st) : st := mkSt (lock s) (mine s) (p_has s) (p_id s) (p_fk s) (p_cs s) (p_txn s) (p_pidset s) (out s) (next s) (closed s) (sess s) (k_reg s) (k_has s) (k_id s) (k_intxn s) (k_imm s) (k_fk s) (k_pending s) (k_forupd s) (k_saved s) (ncall s) v (bad s).
-Definition set_bad (v : list badness) (s : st) : st := mkSt (lock s) (mine s) (p_has s) (p_id s) (p_fk s) (p_cs s) (p_txn s) (p_pidset s) (out s) (next s) (closed s) (sess s) (k_reg s) (k_has s) (k_id s) (k_intxn s) (k_imm s) (k_fk s) (k_pending s) (k_forupd s) (k_saved s) (ncall s) (trace s) v.
+Definition set_lock (v : bool) (s : st) : st := mkSt v (mine s) (p_has s) (p_id s) (p_fk s) (p_cs s) (p_txn s) (p_pidset s) (out s) (next s) (closed s) (sess s) (k_reg s) (k_has s) (k_id s) (k_intxn s) (k_imm s) (k_fk s) (k_pending s) (k_mrem s) (k_madd s) (k_forupd s) (k_saved s) (ncall s) (trace s) (bad s).
+Definition set_mine (v : bool) (s : st) : st := mkSt (lock s) v (p_has s) (p_id s) (p_fk s) (p_cs s) (p_txn s) (p_pidset s) (out s) (next s) (closed s) (sess s) (k_reg s) (k_has s) (k_id s) (k_intxn s) (k_imm s) (k_fk s) (k_pending s) (k_mrem s) (k_madd s) (k_forupd s) (k_saved s) (ncall s) (trace s) (bad s).
+Definition set_p_has (v : bool) (s : st) : st := mkSt (lock s) (mine s) v (p_id s) (p_fk s) (p_cs s) (p_txn s) (p_pidset s) (out s) (next s) (closed s) (sess s) (k_reg s) (k_has s) (k_id s) (k_intxn s) (k_imm s) (k_fk s) (k_pending s) (k_mrem s) (k_madd s) (k_forupd s) (k_saved s) (ncall s) (trace s) (bad s).
+Definition set_p_id (v : nat) (s : st) : st := mkSt (lock s) (mine s) (p_has s) v (p_fk s) (p_cs s) (p_txn s) (p_pidset s) (out s) (next s) (closed s) (sess s) (k_reg s) (k_has s) (k_id s) (k_intxn s) (k_imm s) (k_fk s) (k_pending s) (k_mrem s) (k_madd s) (k_forupd s) (k_saved s) (ncall s) (trace s) (bad s).
+Definition set_p_fk (v : bool) (s : st) : st := mkSt (lock s) (mine s) (p_has s) (p_id s) v (p_cs s) (p_txn s) (p_pidset s) (out s) (next s) (closed s) (sess s) (k_reg s) (k_has s) (k_id s) (k_intxn s) (k_imm s) (k_fk s) (k_pending s) (k_mrem s) (k_madd s) (k_forupd s) (k_saved s) (ncall s) (trace s) (bad s).
+Definition set_p_cs (v : bool) (s : st) : st := mkSt (lock s) (mine s) (p_has s) (p_id s) (p_fk s) v (p_txn s) (p_pidset s) (out s) (next s) (closed s) (sess s) (k_reg s) (k_has s) (k_id s) (k_intxn s) (k_imm s) (k_fk s) (k_pending s) (k_mrem s) (k_madd s) (k_forupd s) (k_saved s) (ncall s) (trace s) (bad s).
+Definition set_p_txn (v : bool) (s : st) : st := mkSt (lock s) (mine s) (p_has s) (p_id s) (p_fk s) (p_cs s) v (p_pidset s) (out s) (next s) (closed s) (sess s) (k_reg s) (k_has s) (k_id s) (k_intxn s) (k_imm s) (k_fk s) (k_pending s) (k_mrem s) (k_madd s) (k_forupd s) (k_saved s) (ncall s) (trace s) (bad s).
+Definition set_p_pidset (v : bool) (s : st) : st := mkSt (lock s) (mine s) (p_has s) (p_id s) (p_fk s) (p_cs s) (p_txn s) v (out s) (next s) (closed s) (sess s) (k_reg s) (k_has s) (k_id s) (k_intxn s) (k_imm s) (k_fk s) (k_pending s) (k_mrem s) (k_madd s) (k_forupd s) (k_saved s) (ncall s) (trace s) (bad s).
+Definition set_out (v : bool) (s : st) : st := mkSt (lock s) (mine s) (p_has s) (p_id s) (p_fk s) (p_cs s) (p_txn s) (p_pidset s) v (next s) (closed s) (sess s) (k_reg s) (k_has s) (k_id s) (k_intxn s) (k_imm s) (k_fk s) (k_pending s) (k_mrem s) (k_madd s) (k_forupd s) (k_saved s) (ncall s) (trace s) (bad s).
+Definition set_next (v : nat) (s : st) : st := mkSt (lock s) (mine s) (p_has s) (p_id s) (p_fk s) (p_cs s) (p_txn s) (p_pidset s) (out s) v (closed s) (sess s) (k_reg s) (k_has s) (k_id s) (k_intxn s) (k_imm s) (k_fk s) (k_pending s) (k_mrem s) (k_madd s) (k_forupd s) (k_saved s) (ncall s) (trace s) (bad s).
+Definition set_closed (v : list nat) (s : st) : st := mkSt (lock s) (mine s) (p_has s) (p_id s) (p_fk s) (p_cs s) (p_txn s) (p_pidset s) (out s) (next s) v (sess s) (k_reg s) (k_has s) (k_id s) (k_intxn s) (k_imm s) (k_fk s) (k_pending s) (k_mrem s) (k_madd s) (k_forupd s) (k_saved s) (ncall s) (trace s) (bad s).
+Definition set_sess (v : shape) (s : st) : st := mkSt (lock s) (mine s) (p_has s) (p_id s) (p_fk s) (p_cs s) (p_txn s) (p_pidset s) (out s) (next s) (closed s) v (k_reg s) (k_has s) (k_id s) (k_intxn s) (k_imm s) (k_fk s) (k_pending s) (k_mrem s) (k_madd s) (k_forupd s) (k_saved s) (ncall s) (trace s) (bad s).
+Definition set_k_reg (v : bool) (s : st) : st := mkSt (lock s) (mine s) (p_has s) (p_id s) (p_fk s) (p_cs s) (p_txn s) (p_pidset s) (out s) (next s) (closed s) (sess s) v (k_has s) (k_id s) (k_intxn s) (k_imm s) (k_fk s) (k_pending s) (k_mrem s) (k_madd s) (k_forupd s) (k_saved s) (ncall s) (trace s) (bad s).
+Definition set_k_has (v : bool) (s : st) : st := mkSt (lock s) (mine s) (p_has s) (p_id s) (p_fk s) (p_cs s) (p_txn s) (p_pidset s) (out s) (next s) (closed s) (sess s) (k_reg s) v (k_id s) (k_intxn s) (k_imm s) (k_fk s) (k_pending s) (k_mrem s) (k_madd s) (k_forupd s) (k_saved s) (ncall s) (trace s) (bad s).
+Definition set_k_id (v : nat) (s : st) : st := mkSt (lock s) (mine s) (p_has s) (p_id s) (p_fk s) (p_cs s) (p_txn s) (p_pidset s) (out s) (next s) (closed s) (sess s) (k_reg s) (k_has s) v (k_intxn s) (k_imm s) (k_fk s) (k_pending s) (k_mrem s) (k_madd s) (k_forupd s) (k_saved s) (ncall s) (trace s) (bad s).
+Definition set_k_intxn (v : bool) (s : st) : st := mkSt (lock s) (mine s) (p_has s) (p_id s) (p_fk s) (p_cs s) (p_txn s) (p_pidset s) (out s) (next s) (closed s) (sess s) (k_reg s) (k_has s) (k_id s) v (k_imm s) (k_fk s) (k_pending s) (k_mrem s) (k_madd s) (k_forupd s) (k_saved s) (ncall s) (trace s) (bad s).
+Definition set_k_imm (v : bool) (s : st) : st := mkSt (lock s) (mine s) (p_has s) (p_id s) (p_fk s) (p_cs s) (p_txn s) (p_pidset s) (out s) (next s) (closed s) (sess s) (k_reg s) (k_has s) (k_id s) (k_intxn s) v (k_fk s) (k_pending s) (k_mrem s) (k_madd s) (k_forupd s) (k_saved s) (ncall s) (trace s) (bad s).
+Definition set_k_fk (v : bool) (s : st) : st := mkSt (lock s) (mine s) (p_has s) (p_id s) (p_fk s) (p_cs s) (p_txn s) (p_pidset s) (out s) (next s) (closed s) (sess s) (k_reg s) (k_has s) (k_id s) (k_intxn s) (k_imm s) v (k_pending s) (k_mrem s) (k_madd s) (k_forupd s) (k_saved s) (ncall s) (trace s) (bad s).
+Definition set_k_pending (v : nat) (s : st) : st := mkSt (lock s) (mine s) (p_has s) (p_id s) (p_fk s) (p_cs s) (p_txn s) (p_pidset s) (out s) (next s) (closed s) (sess s) (k_reg s) (k_has s) (k_id s) (k_intxn s) (k_imm s) (k_fk s) v (k_mrem s) (k_madd s) (k_forupd s) (k_saved s) (ncall s) (trace s) (bad s).
+Definition set_k_mrem (v : bool) (s : st) : st := mkSt (lock s) (mine s) (p_has s) (p_id s) (p_fk s) (p_cs s) (p_txn s) (p_pidset s) (out s) (next s) (closed s) (sess s) (k_reg s) (k_has s) (k_id s) (k_intxn s) (k_imm s) (k_fk s) (k_pending s) v (k_madd s) (k_forupd s) (k_saved s) (ncall s) (trace s) (bad s).
+Definition set_k_madd (v : bool) (s : st) : st := mkSt (lock s) (mine s) (p_has s) (p_id s) (p_fk s) (p_cs s) (p_txn s) (p_pidset s) (out s) (next s) (closed s) (sess s) (k_reg s) (k_has s) (k_id s) (k_intxn s) (k_imm s) (k_fk s) (k_pending s) (k_mrem s) v (k_forupd s) (k_saved s) (ncall s) (trace s) (bad s).
+Definition set_k_forupd (v : nat) (s : st) : st := mkSt (lock s) (mine s) (p_has s) (p_id s) (p_fk s) (p_cs s) (p_txn s) (p_pidset s) (out s) (next s) (closed s) (sess s) (k_reg s) (k_has s) (k_id s) (k_intxn s) (k_imm s) (k_fk s) (k_pending s) (k_mrem s) (k_madd s) v (k_saved s) (ncall s) (trace s) (bad s).
+Definition set_k_saved (v : bool) (s : st) : st := mkSt (lock s) (mine s) (p_has s) (p_id s) (p_fk s) (p_cs s) (p_txn s) (p_pidset s) (out s) (next s) (closed s) (sess s) (k_reg s) (k_has s) (k_id s) (k_intxn s) (k_imm s) (k_fk s) (k_pending s) (k_mrem s) (k_madd s) (k_forupd s) v (ncall s) (trace s) (bad s).
+Definition set_ncall (v : nat) (s : st) : st := mkSt (lock s) (mine s) (p_has s) (p_id s) (p_fk s) (p_cs s) (p_txn s) (p_pidset s) (out s) (next s) (closed s) (sess s) (k_reg s) (k_has s) (k_id s) (k_intxn s) (k_imm s) (k_fk s) (k_pending s) (k_mrem s) (k_madd s) (k_forupd s) (k_saved s) v (trace s) (bad s).
+Definition set_trace (v : list event) (s : st) : st := mkSt (lock s) (mine s) (p_has s) (p_id s) (p_fk s) (p_cs s) (p_txn s) (p_pidset s) (out s) (next s) (closed s) (sess s) (k_reg s) (k_has s) (k_id s) (k_intxn s) (k_imm s) (k_fk s) (k_pending s) (k_mrem s) (k_madd s) (k_forupd s) (k_saved s) (ncall s) v (bad s).
+Definition set_bad (v : list badness) (s : st) : st := mkSt (lock s) (mine s) (p_has s) (p_id s) (p_fk s) (p_cs s) (p_txn s) (p_pidset s) (out s) (next s) (closed s) (sess s) (k_reg s) (k_has s) (k_id s) (k_intxn s) (k_imm s) (k_fk s) (k_pending s) (k_mrem s) (k_madd s) (k_forupd s) (k_saved s) (ncall s) (trace s) v.
 
 Definition log (k : call) (id : nat) (ok : bool) (txn : bool) (s : st) : st :=
   set_ncall (S (ncall s)) (set_trace (Ev k id ok (lock s) txn (mine s) (k_pending s) :: trace s) s).
@@ -159,12 +163,16 @@ Definition release_lock : M := fun s =>
 
 (* ---- Pool.connect + SQLitePool._connect;  DBAPIProvider.connect ----
    Pool.connect: `if pool.con is not None and pool.pid != pid: ...` (fork check, C36), then `if pool.con is None: pool._connect();
-   pool.pid = pid`.  SQLitePool.__init__ (run once per thread) does not create the attribute `pid`, and SQLitePool._connect
-   assigns pool.con before it runs the two PRAGMAs; p_pidset = the attribute exists. *)
+   pool.pid = pid`.  SQLitePool.__init__ (run once per thread) does not create the attribute `pid` (p_pidset = it exists).
+   SQLitePool._connect (since /repo 54964b5): con = sqlite.connect(...); try: <functions, the two PRAGMAs> except: con.close(); raise;
+   pool.con = con.  The connection being initialised is kept in the pool fields of the model (nothing can observe them before
+   _connect returns) and is taken out again on failure. *)
 Definition pool_connect : M := fun s =>
   if p_has s
-  then (if p_pidset s then (Ok, s) else (Err EAttr, s))     (* `pool.pid != pid` on a SQLitePool whose pid was never assigned *)
-  else (db_connect ;; (fun s1 => dbcall (KExecute SFkOn) (p_id s1) s1) ;; (fun s1 => dbcall (KExecute SCsLike) (p_id s1) s1) ;;
+  then (if p_pidset s then (Ok, s) else (Err EAttr, s))
+  else (db_connect ;;
+        try_except ((fun s1 => dbcall (KExecute SFkOn) (p_id s1) s1) ;; (fun s1 => dbcall (KExecute SCsLike) (p_id s1) s1))
+                   (fun e => (fun s1 => db_close (p_id s1) (set_p_has false s1)) ;; raise e) ;;
         upd (set_p_pidset true)) s.
 Definition prov_connect : M :=
   pool_connect ;; (fun s => (Ok, set_out true (if out s then add_bad BadDoubleCheckout s else s))).
@@ -216,7 +224,7 @@ Definition prov_release (id : nat) : M := fun s =>
 Definition get_cache : M := fun s =>
   if k_reg s then (Ok, s)
   else (Ok, set_k_reg true (set_k_has false (set_k_intxn false (set_k_imm (shape_imm (sess s))
-             (set_k_fk false (set_k_pending 0 (set_k_forupd 0 (set_k_saved false s)))))))).
+             (set_k_fk false (set_k_pending 0 (set_k_mrem false (set_k_madd false (set_k_forupd 0 (set_k_saved false s)))))))))).
 
 Definition cache_connect : M :=
   (fun s => assert_ (negb (k_has s)) s) ;;
@@ -233,37 +241,49 @@ Definition prepare_nf : M := fun s =>
   else (Ok, s).
 
 (* Database._exec_sql while cache.noflush_counter > 0 (inside flush) *)
-Definition exec_with (prepare : M) (start : bool) (q : stmt) : M :=
+Definition stmt_call (many : bool) (q : stmt) : call := if many then KExecMany q else KExecute q.
+Definition exec_with (prepare : M) (start : bool) (many : bool) (q : stmt) : M :=
   get_cache ;;
   when start (upd (set_k_imm true)) ;;
   prepare ;;
   (* connection.cursor() is called outside wrap_dbapi_exceptions: a driver error escapes unwrapped (EDrv) *)
-  (fun s => (try_except (dbcall KCursor (k_id s)) (fun _ => raise EDrv) ;; dbcall (KExecute q) (k_id s)) s) ;;
+  (fun s => (try_except (dbcall KCursor (k_id s)) (fun _ => raise EDrv) ;; dbcall (stmt_call many q) (k_id s)) s) ;;
   (fun s => when (k_imm s) (upd (set_k_intxn true)) s).
 
 Definition wrap_orm (e : exn) : exn := match e with EDb => EUnexp | _ => e end.   (* _save_created_: DatabaseError -> UnexpectedError *)
+
+(* cache.modified *)
+Definition modified (s : st) : bool := (0 <? k_pending s) || k_mrem s || k_madd s.
 
 (* the saving loop of SessionCache.flush: one INSERT/UPDATE/DELETE per pending object; a saved object is appended to
    cache.saved_objects (k_saved: the list is not empty) until call_after_save_hooks() empties it at the end of the loop *)
 Definition flush_mark (s : st) : st := set_k_saved true (set_k_pending (pred (k_pending s)) s).
 Fixpoint flush_loop (k : nat) : M :=
   match k with
-  | O => upd (set_k_saved false)
-  | S k' => try_except (exec_with prepare_nf true SWrite) (fun e => raise (wrap_orm e)) ;;
+  | O => ret
+  | S k' => try_except (exec_with prepare_nf true false SWrite) (fun e => raise (wrap_orm e)) ;;
             upd flush_mark ;;
             flush_loop k'
   end.
+(* attr.remove_m2m / attr.add_m2m: one executemany on the link table through _exec_sql(sql, arguments_list) - WITHOUT
+   start_transaction: it relies on flush having set cache.immediate *)
+Definition exec_m2m : M := exec_with prepare_nf false true SWrite.
+Definition flush_body : M :=
+  (fun s => when (k_mrem s) exec_m2m s) ;;
+  (fun s => flush_loop (k_pending s) s) ;;
+  (fun s => when (k_madd s) exec_m2m s) ;;
+  upd (fun s => set_k_mrem false (set_k_madd false (set_k_saved false s))).
 
 (* SessionCache.flush: `assert not cache.saved_objects` fails after an earlier flush that died half way and was caught *)
 Definition cache_flush : M := fun s =>
   if k_saved s then (Err EAssert, s) else
   let prev := k_imm s in
   (upd (set_k_imm true) ;;
-   try_finally (fun s1 => flush_loop (k_pending s1) s1)
+   try_finally flush_body
                (fun s1 => if k_intxn s1 then (Ok, s1) else (Ok, set_k_imm prev s1))) s.
 
-Definition prepare : M := prepare_nf ;; (fun s => when (0 <? k_pending s) cache_flush s).
-Definition exec (start : bool) (q : stmt) : M := exec_with prepare start q.
+Definition prepare : M := prepare_nf ;; (fun s => when (modified s) cache_flush s).
+Definition exec (start : bool) (q : stmt) : M := exec_with prepare start false q.
 
 (* SessionCache.close(rollback) *)
 Definition cache_close (rb : bool) : M :=
@@ -282,7 +302,7 @@ Definition cache_close (rb : bool) : M :=
 Definition cache_commit : M :=
   (fun s => assert_ (k_reg s) s) ;;
   try_except
-    ((fun s => when (0 <? k_pending s) cache_flush s) ;;
+    ((fun s => when (modified s) cache_flush s) ;;
      (fun s => when (k_intxn s) ((fun s1 => assert_ (k_has s1) s1) ;; (fun s1 => prov_commit (k_id s1) s1)) s) ;;
      upd (fun s => set_k_imm true (set_k_forupd 0 s)))
     (fun e => cache_close true ;; raise e).
@@ -312,7 +332,9 @@ Definition get_connection : M :=
   (fun s => assert_ (k_has s) s).
 
 (* ---- session bodies ---- *)
-Inductive op := OSelect | OForUpd | ONew | OFlush | ORawWrite | OCommit | ORollback | ODbCommit | ODbRollback | ORaise | OGetConn.
+Inductive op := OSelect | OForUpd | ONew | OFlush | ORawWrite | OCommit | ORollback | ODbCommit | ODbRollback | ORaise | OGetConn
+  | OLink | OUnlink                       (* a many-to-many link added / removed between loaded objects: no SQL before the flush *)
+  | OGetFU (cached locked : bool).        (* get_for_update(...) by any key, the object being / not being in the session cache / in cache.for_update *)
 
 Definition run_op (o : op) : M :=
   match o with
@@ -328,6 +350,13 @@ Definition run_op (o : op) : M :=
   | ODbRollback => db_rollback
   | ORaise => raise EBody
   | OGetConn => get_connection
+  | OLink => get_cache ;; upd (set_k_madd true)
+  | OUnlink => get_cache ;; upd (set_k_mrem true)
+  (* EntityMeta._find_in_cache_: an object found in the cache is used only if it is already locked; otherwise _find_in_db_ *)
+  | OGetFU cached locked =>
+      if cached && locked then get_cache
+      else get_cache ;; upd (set_k_imm true) ;; exec false SSelect ;;
+           (fun s => assert_ (k_intxn s) s) ;; upd (fun s => set_k_forupd (S (k_forupd s)) s)
   end.
 
 (* the body of a db_session: a list of (operation, does the body catch an exception raised by it) *)
@@ -368,8 +397,8 @@ End WithOracle.
 
 (* initial states: a thread that never connected / the connection made by Database.bind() sits in the pool /
    the thread connected before and disconnected (pool.pid exists) *)
-Definition st_empty : st := mkSt false false false 0 false false false false false 0 [] ShOpt false false 0 false false false 0 0 false 0 [] [].
-Definition st_pooled : st := mkSt false false true 0 true true false true false 1 [] ShOpt false false 0 false false false 0 0 false 0 [] [].
+Definition st_empty : st := mkSt false false false 0 false false false false false 0 [] ShOpt false false 0 false false false 0 false false 0 false 0 [] [].
+Definition st_pooled : st := mkSt false false true 0 true true false true false 1 [] ShOpt false false 0 false false false 0 false false 0 false 0 [] [].
 
 Definition st_disconnected : st := set_p_pidset true st_empty.
 
@@ -382,6 +411,7 @@ Definition call_eqb (a b : call) : bool :=
   match a, b with
   | KConnect, KConnect | KCursor, KCursor | KCommit, KCommit | KRollback, KRollback | KClose, KClose => true
   | KExecute x, KExecute y => stmt_eqb x y
+  | KExecMany x, KExecMany y => stmt_eqb x y
   | _, _ => false
   end.
 Definition event_eqb (a b : event) : bool :=
@@ -440,8 +470,8 @@ Definition txn_of (c : cstate) (id : nat) : bool :=
 Fixpoint flags_ok (tr : list event) : bool :=
   match tr with [] => true | e :: older => eqb (e_txn e) (txn_of (scan older) (e_con e)) && flags_ok older end.
 
-Definition is_write (e : event) : bool := match e_call e with KExecute SWrite => true | _ => false end.
-Definition is_stmt (e : event) : bool := match e_call e with KExecute SWrite | KExecute SSelect => true | _ => false end.
+Definition is_write (e : event) : bool := match e_call e with KExecute SWrite | KExecMany SWrite => true | _ => false end.
+Definition is_stmt (e : event) : bool := match e_call e with KExecute SWrite | KExecMany SWrite | KExecute SSelect => true | _ => false end.
 
 (* what every driver call of a session of shape `sh` must satisfy (oth = another thread holds the provider lock):
    - a write is issued inside an open driver-level transaction, with the provider lock held by this thread      (C17, C35)
